@@ -124,10 +124,27 @@ impl<T: SharedResource> ReloadFeatureFactory<T> {
                 resource_demand_fn: resource_demand_fn.clone(),
                 is_partial_solution_fn: is_partial_solution_fn.clone(),
             })
-            .with_state(SharedResourceState { resource_capacity_fn, resource_demand_fn, is_partial_solution_fn })
+            .with_state(SharedResourceState {
+                resource_capacity_fn: resource_capacity_fn.clone(),
+                resource_demand_fn: resource_demand_fn.clone(),
+                is_partial_solution_fn: is_partial_solution_fn.clone(),
+            })
             .build()?;
 
-        FeatureCombinator::default().use_name(self.name).add_features(&[simple_reload, shared_resource]).combine()
+        let shared_reload = FeatureBuilder::default()
+            .with_name(self.name.as_str())
+            .with_constraint(SharedReloadConstraint {
+                violation_code,
+                resource_capacity_fn,
+                resource_demand_fn,
+                is_partial_solution_fn,
+            })
+            .build()?;
+
+        FeatureCombinator::default()
+            .use_name(self.name)
+            .add_features(&[simple_reload, shared_resource, shared_reload])
+            .combine()
     }
 }
 
@@ -354,6 +371,78 @@ impl<T: SharedResource> FeatureConstraint for SharedResourceConstraint<T> {
         match move_ctx {
             MoveContext::Route { solution_ctx, route_ctx, job } => self.evaluate_route(solution_ctx, route_ctx, job),
             MoveContext::Activity { route_ctx, activity_ctx, .. } => self.evaluate_activity(route_ctx, activity_ctx),
+        }
+    }
+
+    fn merge(&self, source: Job, _: Job) -> Result<Job, ViolationCode> {
+        Ok(source)
+    }
+}
+
+/// Checks that a reload with shared resource, inserted in front of already assigned jobs, has enough resource for them.
+struct SharedReloadConstraint<T: SharedResource> {
+    violation_code: ViolationCode,
+    resource_capacity_fn: SharedResourceCapacityFn<T>,
+    resource_demand_fn: SharedResourceDemandFn<T>,
+    is_partial_solution_fn: PartialSolutionFn,
+}
+
+impl<T: SharedResource> SharedReloadConstraint<T> {
+    fn get_demand(&self, route_ctx: &RouteContext, range: RangeInclusive<usize>) -> T {
+        range
+            .filter_map(|idx| route_ctx.route().tour.get(idx))
+            .filter_map(|activity| activity.job.as_ref())
+            .fold(T::default(), |acc, job| acc + (self.resource_demand_fn)(job).unwrap_or_default())
+    }
+}
+
+impl<T: SharedResource> FeatureConstraint for SharedReloadConstraint<T> {
+    fn evaluate(&self, move_ctx: &MoveContext<'_>) -> Option<ConstraintViolation> {
+        let MoveContext::Activity { solution_ctx, route_ctx, activity_ctx } = move_ctx else {
+            return ConstraintViolation::success();
+        };
+
+        let (total_capacity, resource_id) = (self.resource_capacity_fn)(activity_ctx.target)?;
+
+        // jobs which are served after the new reload within the same interval are going to be loaded at it
+        let interval_end = route_ctx
+            .state()
+            .get_reload_intervals()
+            .iter()
+            .flat_map(|intervals| intervals.iter())
+            .find(|(_, end_idx)| activity_ctx.index <= *end_idx)
+            .map_or(route_ctx.route().tour.total().saturating_sub(1), |&(_, end_idx)| end_idx);
+        let moved_demand = self.get_demand(route_ctx, (activity_ctx.index + 1)..=interval_end);
+
+        if !moved_demand.is_not_empty() {
+            return ConstraintViolation::success();
+        }
+
+        // NOTE cannot do resource assignment for partial solution
+        if (self.is_partial_solution_fn)(solution_ctx) {
+            return ConstraintViolation::skip(self.violation_code);
+        }
+
+        let consumed = solution_ctx.routes.iter().fold(T::default(), |acc, route_ctx| {
+            route_ctx.state().get_reload_intervals().iter().flat_map(|intervals| intervals.iter()).fold(
+                acc,
+                |acc, &(start_idx, end_idx)| {
+                    let is_same_resource = route_ctx
+                        .route()
+                        .tour
+                        .get(start_idx)
+                        .and_then(|activity| (self.resource_capacity_fn)(activity))
+                        .is_some_and(|(_, id)| id == resource_id);
+
+                    if is_same_resource { acc + self.get_demand(route_ctx, start_idx..=end_idx) } else { acc }
+                },
+            )
+        });
+
+        if (total_capacity - consumed).can_fit(&moved_demand) {
+            ConstraintViolation::success()
+        } else {
+            ConstraintViolation::skip(self.violation_code)
         }
     }
 
